@@ -331,6 +331,18 @@ pub fn orphaned_reffuncs(a: &AMod) -> Vec<u32> {
         let by_global = a.globals.iter().enumerate().any(|(j, gl)| g.contains(&(j as u32 + ng)) && gl.init.as_ref().map(|c| const_decl(c, *x)).unwrap_or(false));
         !exported && !by_elem && !by_global }).collect()
 }
+/// functions that some function body of the module (reachable or not) takes a `ref.func` of in live code and that no export, element segment
+/// or global initialiser of the module declares: what the validator reports as "undeclared function reference"
+pub fn undeclared_reffuncs_all(a: &AMod) -> Vec<u32> {
+    let mut refd: BTreeSet<u32> = BTreeSet::new();
+    for b in &a.code { let live = crate::body::live_mask(&b.ops); for (k, o) in b.ops.iter().enumerate() { if !live[k] { continue; } if let Some(t) = &o.0 { if let Some(p) = t.find("W_RefFunc ") { if let Ok(x) = t[p + 10..].split(|c: char| !c.is_ascii_digit()).next().unwrap_or("").parse::<u32>() { refd.insert(x); } } } } }
+    let const_decl = |c: &Vec<String>, x: u32| c.iter().any(|t| t.strip_prefix("W_RefFunc ").and_then(|y| y.parse::<u32>().ok()) == Some(x));
+    refd.into_iter().filter(|x| {
+        let exported = a.exports.iter().any(|ex| ex.1 == 0 && ex.2 == *x);
+        let by_elem = a.elems.iter().any(|el| match &el.items { AElemItems::Funcs(fs) => fs.contains(x), AElemItems::Exprs(_, es) => es.iter().any(|c| const_decl(c, *x)) });
+        let by_global = a.globals.iter().any(|gl| gl.init.as_ref().map(|c| const_decl(c, *x)).unwrap_or(false));
+        !exported && !by_elem && !by_global }).collect()
+}
 pub fn undeclared_class(a: &AMod) -> &'static str {
     if orphaned_reffuncs(a).is_empty() { "gc-output-invalid:undeclared-function-reference:no-declarer-was-unreachable" } else { "gc-output-invalid:undeclared-function-reference:every-declarer-unreachable" }
 }
@@ -354,7 +366,14 @@ pub fn gc(name: &str, wasm: &[u8], out: &mut Vec<Json>) {
     let (f, t, m, g, d, e) = reachable(&a);
     let mem_residue = if !d.is_empty() && m.is_empty() && (n_imp(&a, 2) + a.mems.len()) > 0 { 1 } else { 0 };
     let got = (n_imp(&b, 0) + b.funcs.len(), n_imp(&b, 1) + b.tables.len(), n_imp(&b, 2) + b.mems.len(), n_imp(&b, 3) + b.globals.len(), b.data.len(), b.elems.len());
-    let want = (f.len(), t.len(), m.len() + mem_residue, g.len(), d.len(), e.len());
+    // functions that a kept body takes a reference of (`ref.func`) while everything that declared them is unreachable: the pass declares
+    // exactly those in ONE new declared element segment (a root by definition), appended after the kept segments
+    let orphans = orphaned_reffuncs(&a); let declares = if orphans.is_empty() { 0 } else { 1 };
+    let want = (f.len(), t.len(), m.len() + mem_residue, g.len(), d.len(), e.len() + declares);
+    if declares == 1 && b.elems.len() == e.len() + 1 {
+        let ok = match b.elems.last() { Some(crate::amod::AElem { kind: crate::amod::AElemKind::Declared, items: AElemItems::Funcs(fs), .. }) => { let mut b2 = b.clone(); b2.elems.pop(); let mut o = orphaned_reffuncs(&b2); o.sort(); let mut fs = fs.clone(); fs.sort(); fs == o && fs.len() == orphans.len() }, _ => false };
+        if !ok { out.push(v("gc-declares-wrong-functions", "C06 C07", format!("{}: the element segment added by gc is not a declared segment listing exactly the {} functions that would otherwise be undeclared", name, orphans.len()), wasm, format!("{:?}", b.elems.last()), format!("{:?}", orphans))); }
+    }
     if got != want {
         let class = if got.0 > want.0 || got.1 > want.1 || got.2 > want.2 || got.3 > want.3 || got.4 > want.4 || got.5 > want.5 { "gc-keeps-unreachable" } else { "gc-drops-reachable" };
         out.push(v(class, if class == "gc-keeps-unreachable" { "C07" } else { "C06 C07" }, format!("{}: after gc the module has (funcs, tables, memories, globals, data, elements) = {:?}; reachable from the roots: {:?}", name, got, want), wasm, format!("{:?}", got), format!("{:?}", want)));
